@@ -10,6 +10,7 @@
 //	del-assign    x.f = nil / x = nil / x.f = false / x.f = true                      -> removed
 //	del-defer     defer f(...)      -> removed
 //	incdec        x++ / x--         -> swapped
+//	intlit        decimal integer literal N -> N+1
 //
 // It is the self-test generator of /verif: does an owning check notice a change that still builds and passes the pinned suite?
 package main
@@ -119,6 +120,13 @@ func main() {
 			}
 			if s, e, ok := stmtRange(x); ok {
 				edits = append(edits, edit{s, e, "", "del-defer", line(x.Pos())})
+			}
+		case *ast.BasicLit:
+			if x.Kind == token.INT && len(x.Value) < 6 {
+				var v int
+				if _, err := fmt.Sscanf(x.Value, "%d", &v); err == nil && fmt.Sprint(v) == x.Value {
+					edits = append(edits, edit{off(x.Pos()), off(x.End()), fmt.Sprint(v + 1), "intlit", line(x.Pos())})
+				}
 			}
 		case *ast.IncDecStmt:
 			r := "--"
